@@ -45,6 +45,28 @@ def run(R):
             enc += [ac.inc_history(R, rounds, key, nonce, aad, pt, "enc", k_aad=R.rng.choice([1, 2, 3]), k_data=R.rng.choice([1, 2, 3])) for _ in range(2)]
         meta[h1["id"]] = (rounds, key, nonce, aad, pt)
         R.count(("enc", rounds, kl, a, p), trivial=(a == 0 and p == 0))
+    # designed partitions: a middle piece that starts mid-block, crosses the end of a 64-byte keystream block and ends mid-block (10+70+34, 33+64+17, ...),
+    # AAD and data pieces of 16 bytes and more arriving while 1..15 bytes are staged in the MAC
+    for j, (rounds, kl, aparts, dparts) in enumerate([(20, 32, [7, 43], [10, 70, 34]), (20, 16, [16, 1, 20], [33, 64, 17]), (12, 32, [3], [5, 128, 6, 70]), (8, 16, [15, 17], [1, 63, 65, 2]),
+                                                      (20, 32, [], [60, 8, 130])]):
+        tag = "designed/%d" % j
+        key, nonce = vlib.prng_bytes(R.seed, "c06key/" + tag, kl), vlib.prng_bytes(R.seed, "c06nonce/" + tag, 12)
+        aad, pt = vlib.prng_bytes(R.seed, "c06aad/" + tag, sum(aparts)), vlib.prng_bytes(R.seed, "c06pt/" + tag, sum(dparts))
+        for mut in (0, 1):
+            ev = [{"op": "new"}]
+            pos = 0
+            for a in aparts:
+                ev.append({"op": "add_data", "x": 1, "data": aad[pos:pos + a]}); pos += a
+            ev.append({"op": "to_encryption", "x": 1})
+            pos = 0
+            for i, d in enumerate(dparts):
+                ev.append({"op": ("encrypt", "encrypt_mut")[(i + mut) % 2], "x": 1, "data": pt[pos:pos + d]}); pos += d
+            ev.append({"op": "finalize", "x": 1})
+            enc.append({"id": R.next_id(), "cls": "aead", "rounds": rounds, "key": key, "nonce": nonce, "ev": ev})
+        h1 = ac.one_history(R, rounds, key, nonce, aad, pt, "enc")
+        enc.append(h1)
+        meta[h1["id"]] = (rounds, key, nonce, aad, pt)
+        R.count(("enc-designed", j))
     # plaintexts crafted so that the ciphertext drives the Poly1305 limb code through its rare carry / select classes under the one-time key of the
     # (key, nonce) pair: the tag's final reduction, the carry chains, the wrap-around - for keys of full size, through the AEAD interface
     crafted = [] if R.collect else ac.crafted_cases(R, 6 if thorough else 2, "c06")
@@ -65,6 +87,13 @@ def run(R):
         ct, tag = o[:len(o) - 16], o[len(o) - 16:]
         dec.append(ac.one_history(R, rounds, key, nonce, aad, ct, "dec", tag))
         dec.append(ac.inc_history(R, rounds, key, nonce, aad, ct, "dec", tag, k_aad=R.rng.choice([1, 2, 3]), k_data=R.rng.choice([1, 2, 3])))
+        if len(ct) >= 114:                                 # three pieces, the middle one from mid-block across a block end to mid-block, through both decrypt methods
+            for mut in (0, 1):
+                ev = [{"op": "new"}, {"op": "add_data", "x": 1, "data": aad}, {"op": "to_decryption", "x": 1}]
+                for i, (a, b) in enumerate(((0, 10), (10, 80), (80, len(ct)))):
+                    ev.append({"op": ("decrypt", "decrypt_mut")[(i + mut) % 2], "x": 1, "data": ct[a:b]})
+                ev.append({"op": "finalize", "x": 1, "tag": tag})
+                dec.append({"id": R.next_id(), "cls": "aead", "rounds": rounds, "key": key, "nonce": nonce, "ev": ev})
         R.count(("dec", rounds, len(key), len(aad), len(ct)), trivial=(not aad and not ct))
     res2 = R.conform("TraceAead", dec, cost=ac.cost_aead, describe=ac.describe, label="TraceAead.dec")
     ac.confirm_crafted(R, crafted)
